@@ -760,7 +760,7 @@ fn files(rep: &mut Report, nt: &mut BTreeSet<u64>) {
     pool.push(mk(&|s| { s.name = p("\"R6\"", "R6"); s.cond_text = atoms[9].text.clone(); s.cond_expect = atoms[9].expect.clone(); s.layout = Layout::Compact }));
     pool.push(mk(&|s| { s.name = p("\"R7\"", "R7"); s.attrs = vec![attr_variants()[2].clone()]; s.actions = vec![acts[7].clone(), acts[10].clone(), acts[12].clone()] }));
     pool.push(mk(&|s| { s.name = p("\"R8\"", "R8"); s.cond_text = "!(F.a == 1)".into(); s.cond_expect = "Not[Atom(F.a == Int(1))]".into() }));
-    let seps = ["\n\n", "\n", " ", "\n// between rules\n"];
+    let seps = ["\n\n", "\n", " ", "\n// between rules\n", "", "\t", "\r\n", "/* between */", " // rule Ghost { when X.a == 1 then X.b = 2; }\n"];
     let mut seqs: Vec<Vec<usize>> = vec![vec![]];
     for i in 0..pool.len() {
         seqs.push(vec![i]);
@@ -842,8 +842,8 @@ pub fn run(opts: &Opts) -> Vec<Report> {
         let mut nt = BTreeSet::new();
         files(&mut rep, &mut nt);
         rep.count("nontrivial", nt.len() as u64);
-        rep.sample(json!({"note": "files of 0..8 rules from an 8-rule pool: empty, singletons, all ordered pairs, prefixes of 8-chains x 4 separators"}));
-        rep.bound = "files of 0..8 rules from an 8-rule pool: the empty file, every singleton, every ordered pair, prefixes of 8-chains in 4 rotations, x 4 separators (blank line, newline, space, comment line)".into();
+        rep.sample(json!({"note": "files of 0..8 rules from an 8-rule pool: empty, singletons, all ordered pairs, prefixes of 8-chains x 9 separators"}));
+        rep.bound = "files of 0..8 rules from an 8-rule pool: the empty file, every singleton, every ordered pair, prefixes of 8-chains in 4 rotations, x 9 separators (blank line, newline, space, comment line, nothing, tab, CRLF, block comment, trailing comment containing a rule)".into();
         rep.wall_s = t0.elapsed().as_secs_f64();
         out.push(rep);
     }
